@@ -104,6 +104,31 @@ type recStore struct {
 	header.Store[*vh.Header]
 	mu    sync.Mutex
 	calls []storeCall
+	delay time.Duration // every read takes this long (or until its context ends)
+}
+
+func (r *recStore) setDelay(d time.Duration) {
+	r.mu.Lock()
+	r.delay = d
+	r.mu.Unlock()
+}
+
+// slow waits for the configured delay; it returns the context's error if that ends first.
+func (r *recStore) slow(ctx context.Context) error {
+	r.mu.Lock()
+	d := r.delay
+	r.mu.Unlock()
+	if d <= 0 {
+		return nil
+	}
+	return sleepCtx(ctx, d)
+}
+
+func (r *recStore) Head(ctx context.Context, opts ...header.HeadOption[*vh.Header]) (*vh.Header, error) {
+	if err := r.slow(ctx); err != nil {
+		return nil, err
+	}
+	return r.Store.Head(ctx, opts...)
 }
 
 func (r *recStore) log(c storeCall) {
@@ -122,21 +147,33 @@ func (r *recStore) take() []storeCall {
 
 func (r *recStore) Get(ctx context.Context, h header.Hash) (*vh.Header, error) {
 	r.log(storeCall{Method: "Get", Hash: h.String()})
+	if err := r.slow(ctx); err != nil {
+		return nil, err
+	}
 	return r.Store.Get(ctx, h)
 }
 
 func (r *recStore) GetByHeight(ctx context.Context, h uint64) (*vh.Header, error) {
 	r.log(storeCall{Method: "GetByHeight", A: h})
+	if err := r.slow(ctx); err != nil {
+		return nil, err
+	}
 	return r.Store.GetByHeight(ctx, h)
 }
 
 func (r *recStore) GetRange(ctx context.Context, from, to uint64) ([]*vh.Header, error) {
 	r.log(storeCall{Method: "GetRange", A: from, B: to})
+	if err := r.slow(ctx); err != nil {
+		return nil, err
+	}
 	return r.Store.GetRange(ctx, from, to)
 }
 
 func (r *recStore) GetRangeByHeight(ctx context.Context, from *vh.Header, to uint64) ([]*vh.Header, error) {
 	r.log(storeCall{Method: "GetRange", A: from.Height() + 1, B: to})
+	if err := r.slow(ctx); err != nil {
+		return nil, err
+	}
 	return r.Store.GetRangeByHeight(ctx, from, to)
 }
 
@@ -152,8 +189,7 @@ type rawResp struct {
 
 // rawRequest opens a stream to the server, writes the request (a pb message or raw bytes) and reads frames
 // until the stream ends. maxFrames bounds the read loop.
-func rawRequest(ctx context.Context, from host.Host, to peer.ID, req *p2p_pb.HeaderRequest, raw []byte, maxFrames int) rawResp {
-	var out rawResp
+func rawRequest(ctx context.Context, from host.Host, to peer.ID, req *p2p_pb.HeaderRequest, raw []byte, maxFrames int) (out rawResp) {
 	t0 := time.Now()
 	defer func() { out.Elapsed = time.Since(t0) }()
 	s, err := from.NewStream(ctx, to, exProtocolID)
